@@ -35,6 +35,7 @@ def check(run):
     typed += [[], [1] * 9, [0] * 12]      # outside the supported arities: all three sides must still agree
     seqs = [["poseidon " + " ".join(fr_hex(x) for x in v)] for v in typed]
     run.rules.append("poseidon: every arity 1..8 x {all-0, all-1, all-(p-1), all-(p-1)/2, 1..n, descending from p-1, one boundary value per position, random mixes of boundary/limb-sized/full-width values}; distinct = distinct op line")
+    seqs = seqs + gen.neighbours(seqs, rng, 40 if quick else 400)      # purity across calls: L, near-duplicate of L, L again
     run.differential("poseidon-typed", seqs)
 
     # ---- generic parameter records (the theorem quantifies over every record)
@@ -61,6 +62,7 @@ def check(run):
     # trailing bytes are ignored, encodings >= p are reduced: both sides of the contract agree on that
     bl.append([f"pub_poseidon {bytes_hex(vec_fr_bytes([1, 2]) + b'xyz')}"])
     bl.append([f"pub_poseidon {bytes_hex(gen.le(2, 8) + gen.le(P + 1, 32) + gen.le(2, 32))}"])
+    bl = bl + gen.neighbours(bl, rng, 40 if quick else 400)      # purity across calls: L, near-duplicate of L, L again
     run.differential("poseidon-bytes-ffi", bl)
 
     # ---- hash to field
@@ -74,9 +76,17 @@ def check(run):
         if n % 7 == 0:
             hs.append([f"pub_hash {bytes_hex(b)}"])
             hs.append([f"ffi_hash {bytes_hex(b)}"])
+    # an error path must leave nothing behind: a call whose reader or writer fails, then ordinary calls on the same thread
+    for _ in range(6 if quick else 60):
+        a = bytes(rng.getrandbits(8) for _ in range(rng.choice([1, 5, 32, 136, 200])))
+        b = bytes(rng.getrandbits(8) for _ in range(rng.choice([0, 1, 7, 137])))
+        pv = bytes_hex(vec_fr_bytes([rng.getrandbits(200), rng.getrandbits(200)]))
+        hs.append([f"pub_hash {bytes_hex(b)}", f"pub_hash_{rng.choice(['wfail', 'rfail'])} {bytes_hex(a)}", f"pub_hash {bytes_hex(b)}", f"ffi_hash {bytes_hex(b)}",
+                   f"h2f {bytes_hex(b)}", f"pub_poseidon_{rng.choice(['wfail', 'rfail'])} {pv}", f"pub_poseidon {pv}", f"pub_hash {bytes_hex(a)}"])
     hs.append(["h2f " + "00" * 136])
     hs.append(["h2f " + "ff" * 135])
     run.rules.append("hash_to_field: byte strings of every length in the listed set (block boundaries 135/136/137, 271/272/273, ...) with random content, through typed, byte-level and FFI entry points")
+    hs = hs + gen.neighbours(hs, rng, 40 if quick else 400)      # purity across calls: L, near-duplicate of L, L again
     run.differential("hash-to-field", hs)
 
     # ---- purity: same ops from 8 threads at once must give the single-thread transcript
